@@ -57,7 +57,8 @@ def leaf_pool(draw, profile="small", allow_const=False, max_bool=5, max_int=3, m
 
 
 class _Ctx:
-    def __init__(self, draw, pool, kinds, profile, allow_fix, n_shared, explicit_p, value_hints):
+    def __init__(self, draw, pool, kinds, profile, allow_fix, n_shared, explicit_p, value_hints, positive_only=False):
+        self.positive_only = positive_only
         self.draw = draw
         self.pool = pool
         self.kinds = kinds
@@ -124,7 +125,13 @@ def _node(ctx, depth, negating=False):
     node["id"] = ctx.new_id() if explicit else None
     if explicit and d(st.integers(0, 7)) == 0:
         node["idvar"] = True
-    if kind == "AtLeast":
+    if kind == "AtLeast" and ctx.positive_only:
+        s = d(st.sampled_from([1, None]))
+        node["v"] = d(st.integers(1 if s is None else -1, len(children) + 1))
+        node["s"] = s
+    elif kind == "AtMost" and ctx.positive_only:
+        node["v"] = d(st.integers(-1, len(children) + 1))
+    elif kind == "AtLeast":
         node["v"] = _value(ctx, len(children))
         s = d(st.sampled_from([1, -1, 1, -1, None]))
         if s is None and node["v"] <= 0 and d(st.booleans()):
@@ -139,10 +146,10 @@ def _node(ctx, depth, negating=False):
 
 @st.composite
 def model_spec(draw, kinds=ALL_KINDS, depth=3, profile="small", allow_fix=False, allow_const_leaves=False,
-               share=True, explicit_p=60, max_bool=5, max_int=3, min_leaves=1, odd_ids=False):
+               share=True, explicit_p=60, max_bool=5, max_int=3, min_leaves=1, odd_ids=False, positive_only=False):
     pool = draw(leaf_pool(profile=profile, allow_const=allow_const_leaves, max_bool=max_bool, max_int=max_int,
                           min_leaves=min_leaves, odd_ids=odd_ids))
-    ctx = _Ctx(draw, pool, kinds, profile, allow_fix, 0, explicit_p, None)
+    ctx = _Ctx(draw, pool, kinds, profile, allow_fix, 0, explicit_p, None, positive_only)
     shared = []
     if share and depth >= 2 and draw(st.integers(0, 2)) == 0:
         for _ in range(draw(st.integers(1, 2))):
